@@ -94,7 +94,7 @@ impl Cache for MemoryStore {
                     }
                 }
                 None => {
-                    record.header.cas += 1;
+                    record.header.cas = record.header.cas.saturating_add(1);
                     record.header.timestamp = self.timer.timestamp();
                     let cas = record.header.cas;
                     self.memory.insert(key, record);
